@@ -7,6 +7,33 @@ HERE = os.path.dirname(os.path.abspath(__file__))
 sys.path.insert(0, os.path.join(HERE, "..", "lib"))
 import verif
 
+API_SURFACE = {
+ "files": ["tlx/container/lru_cache.hpp", "tlx/container/splay_tree.hpp"],
+ "called_before_audit": [
+  "LruCacheSet<int, CountingAlloc>: LruCacheSet() [default alloc argument], clear, put(const Key&), touch, touch_if_exists, erase, erase_if_exists, exists const, size const, pop",
+  "LruCacheMap<int, int, CountingAlloc>: LruCacheMap() [default alloc argument], clear, put(const Key&, const Value&), touch, touch_if_exists, erase, erase_if_exists, get, get_touch, exists const, size const, pop",
+  "SplayTree<Tracked, std::less<Tracked>, false|true, CountingAlloc>: SplayTree() [default alloc argument], ~SplayTree, insert, erase(const Key&), clear, exists, size const, empty const, find, traverse_preorder const",
+  "free functions splay / splay_insert / splay_erase / splay_traverse_preorder / splay_traverse_postorder only through class SplayTree"],
+ "newly_added": [
+  "SplayTree::erase(const Node*) (token EN = find() then erase(node); the key reference aliases the node being removed) -- all variants",
+  "SplayTree(Compare, Allocator) constructor with a run-time comparator DirCmp{reverse} over mirrored keys and a stateful allocator (variant G; a dropped comparator or allocator argument changes answers / the orphan-allocation count)",
+  "SplayTree(Allocator) constructor with an explicit stateful allocator (variant A)",
+  "aliases splay_set / splay_multiset, fully defaulted template arguments std::less<int>, std::allocator<int>, plain int keys (variants D, G)",
+  "SplayTree::check() const after every operation, required to be true (all variants); size/empty/check/traverse_preorder through a const reference",
+  "free functions splay, splay_insert, splay_erase, splay_traverse_preorder, splay_traverse_postorder, splay_check (both overloads) called directly on a user-defined node type with lookup key type long != node key type int and a heterogeneous comparator (variant F)",
+  "LruCacheMap<std::string, std::string> and LruCacheSet<std::string>: heap-owning keys/values, defaulted Alloc template argument and constructor argument (variant S)",
+  "LruCacheMap<int, Tracked, TagAlloc>(alloc) and LruCacheSet<int, TagAlloc>(alloc): ledger value type (copy/destroy bookkeeping), explicit stateful allocator through the constructor, rebound into list_ and map_ (variants T, A); KeyValuePair typedef",
+  "LruCacheMap::put(k, get(j)) with j != k: value argument is a reference into the cache (token PG)",
+  "exists()/size() of both caches through a const reference",
+  "regimes: key universes of 24-48 keys (deep splay trees, long left/right assemblies; unordered_map index growing through rehashes), exhaustive blocks run on a seed-chosen variant"],
+ "left_out": [
+  "LruCacheMap::put(k, get(k)) (value aliases the entry put() erases first): heap-use-after-free on /repo HEAD -- reported as a finding with proposed repair fixes/C17/04; generated only when SELF_ALIAS is switched on after the repair",
+  "move-only Value / Key types: put() takes const references and copies into the list, pop() returns by copy -- such instantiations do not compile, nothing to test",
+  "copy / move construction and assignment of the containers: compiler-generated; a copied LruCache holds iterators into the source list and a copied SplayTree shares nodes (not part of the property; the classes document no copy semantics)",
+  "protected typedefs List/ListIterator/Map of the caches (only reachable by deriving), SplayTree::Node public struct fields (read only through find())",
+  "pop() on an empty cache (assert), traversal functors that modify the tree"]
+}
+
 ck = verif.Check("C17")
 rng = ck.rng
 pr = ck.prove()
@@ -19,14 +46,20 @@ def pick(rng, w):
         p -= x
     return w[-1][0]
 
+# put(k, get(k)): heap-use-after-free in LruCacheMap::put on /repo HEAD (finding, proposed repair fixes/C17/04).
+# Off by default so that the unrepaired tree passes; make it the default (and add `lrumap:S P,1,5 PG,1,1 G,1` to the corpus) once repaired.
+SELF_ALIAS = os.environ.get("VERIF_C17_SELF_ALIAS") == "1"
+
 def gen_lru(rng, ismap, nops):
     """spec-tracking generator: pop only on a non-empty cache; keys mostly present"""
     l = []                                  # reference recency list of keys, front = MRU
-    nk = rng.choice([1, 2, 3, 4, 6, 8])
+    nk = rng.choice([1, 2, 3, 4, 6, 8, 8, 40])   # 40: the unordered_map index grows through several rehashes
+    if nk == 40: nops += 40
     mode = rng.below(4)                     # 0 mixed, 1 put/pop (eviction order), 2 touch/erase interleavings, 3 absent-key errors
     ops = []
     while len(ops) < nops:
-        if mode == 1: w = [("P", 40), ("O", 25), ("T", 10), ("GT", 8), ("S", 4), ("X", 4), ("C", 1)]
+        if nk == 40 and len(ops) < 30: w = [("P", 1)]
+        elif mode == 1: w = [("P", 40), ("O", 25), ("T", 10), ("GT", 8), ("S", 4), ("X", 4), ("C", 1)]
         elif mode == 2: w = [("P", 20), ("T", 18), ("TI", 10), ("E", 14), ("EI", 10), ("GT", 10), ("O", 8), ("G", 4), ("S", 2), ("C", 1)]
         elif mode == 3: w = [("P", 10), ("T", 10), ("TI", 8), ("E", 12), ("EI", 8), ("G", 10), ("GT", 10), ("X", 8), ("O", 6), ("C", 6), ("S", 4)]
         else: w = [("P", 25), ("T", 10), ("TI", 6), ("G", 8), ("GT", 8), ("E", 8), ("EI", 6), ("X", 6), ("S", 5), ("O", 10), ("C", 2)]
@@ -43,7 +76,15 @@ def gen_lru(rng, ismap, nops):
         if name != "P" and l and rng.below(100) < present_bias: k = rng.choice(l)
         else: k = rng.below(nk)
         if name == "P":
-            ops.append("P,%d,%d" % (k, 1 + rng.below(9)) if ismap else "P,%d" % k)
+            if ismap and l and rng.below(100) < 12:
+                # put(k, get(j)): the value argument is a reference to the stored value of another key j.
+                # j == k (the entry put() itself erases) is generated only when SELF_ALIAS is set, see the report.
+                j = rng.choice(l) if rng.below(100) < 85 else rng.below(nk)
+                if j == k and not SELF_ALIAS: j = (k + 1) % max(nk, 2)
+                ops.append("PG,%d,%d" % (k, j))
+                if j not in l: continue
+            else:
+                ops.append("P,%d,%d" % (k, 1 + rng.below(9)) if ismap else "P,%d" % k)
             if k in l: l.remove(k)
             l.insert(0, k)
         else:
@@ -51,10 +92,12 @@ def gen_lru(rng, ismap, nops):
             if k in l:
                 if name in ("T", "TI", "GT"): l.remove(k); l.insert(0, k)
                 elif name in ("E", "EI"): l.remove(k)
-    return ("lrumap " if ismap else "lruset ") + " ".join(ops)
+    var = rng.choice(["", "", "S", "T"] if ismap else ["", "", "S", "A"])
+    return ("lrumap" if ismap else "lruset") + (":" + var if var else "") + " " + " ".join(ops)
 
 def gen_splay(rng, dup, nops):
-    nk = rng.choice([1, 2, 3, 4, 5, 8, 8]) if not dup else rng.choice([1, 2, 2, 3, 3, 4, 8])
+    nk = rng.choice([1, 2, 3, 4, 5, 8, 8, 48]) if not dup else rng.choice([1, 2, 2, 3, 3, 4, 8, 24])   # 48 / 24: deep trees, long assemblies
+    if nk > 8: nops += 40
     mode = rng.below(5)        # 0 mixed, 1 ascending run then probes, 2 descending run then probes, 3 empty/clear heavy, 4 erase heavy
     ops = []
     if mode in (1, 2):
@@ -68,8 +111,11 @@ def gen_splay(rng, dup, nops):
         else: w = [("I", 35), ("E", 20), ("X", 14), ("F", 20), ("C", 3), ("T", 8)]
         name = pick(rng, w)
         if name in ("C", "T"): ops.append(name)
-        else: ops.append("%s,%d" % (name, rng.below(nk)))
-    return ("splaymulti " if dup else "splayset ") + " ".join(ops)
+        else:
+            if name == "E" and rng.below(100) < 35: name = "EN"      # erase(const Node*) on the node returned by find()
+            ops.append("%s,%d" % (name, rng.below(nk)))
+    var = rng.choice(["", "", "G", "D", "A", "F"])
+    return ("splaymulti" if dup else "splayset") + (":" + var if var else "") + " " + " ".join(ops)
 
 corpus = [l.strip() for l in open(os.path.join(verif.VERIF, "corpus", "C17", "cases.txt")) if l.strip() and not l.startswith("#")]
 ncorpus = len(corpus)
@@ -86,11 +132,16 @@ else:
         elif m in (5, 6): cases.append(gen_lru(rng, True, 4 + rng.below(40)))
         else: cases.append(gen_lru(rng, False, 4 + rng.below(40)))
     # bounded-exhaustive: every history of the given length over a small key universe (done inside both programs)
+    def xv(kind):
+        v = rng.choice({"splayset": ["", "G", "D", "A", "F"], "splaymulti": ["", "G", "D", "A", "F"],
+                        "lrumap": ["", "S", "T"], "lruset": ["", "S", "A"]}[kind])
+        return kind + (":" + v if v else "")
     if ck.thorough():
-        cases += ["exh splayset 3 5", "exh splaymulti 3 6", "exh splaymulti 2 6", "exh splayset 4 5",
-                  "exh lrumap 2 5", "exh lrumap 3 4", "exh lruset 3 5"]
+        cases += ["exh %s 3 5" % xv("splayset"), "exh %s 3 6" % xv("splaymulti"), "exh %s 2 6" % xv("splaymulti"),
+                  "exh %s 4 5" % xv("splayset"), "exh %s 2 5" % xv("lrumap"), "exh %s 3 4" % xv("lrumap"), "exh %s 3 5" % xv("lruset")]
     else:
-        cases += ["exh splayset 3 4", "exh splaymulti 3 4", "exh splaymulti 2 5", "exh lrumap 2 3", "exh lruset 3 3"]
+        cases += ["exh %s 3 4" % xv("splayset"), "exh %s 3 4" % xv("splaymulti"), "exh %s 2 5" % xv("splaymulti"),
+                  "exh %s 2 3" % xv("lrumap"), "exh %s 3 3" % xv("lruset")]
 casefile = os.path.join(ck.scratch, "cases.txt")
 open(casefile, "w").write("\n".join(cases) + "\n")
 
@@ -102,7 +153,8 @@ def expand_replay(c):
 found = False
 exe, log = ck.build_cpp("c17_harness", ["harness/C17/c17_harness.cpp"])
 drv, dlog = ck.ocaml_driver("C17")
-stats = {"lruset": 0, "lrumap": 0, "splayset": 0, "splaymulti": 0, "exh": 0}
+import collections
+stats = collections.defaultdict(int)
 exh_counts = {}
 distinct = set()
 samples = []
@@ -117,12 +169,12 @@ def nontrivial(kind, case, line):
         for t, o in zip(toks, outs):
             parts = o.split("/")
             if len(parts) < 3: return False
-            if t.startswith("E,") and parts[0] == "b1" and prev >= 3: return True
+            if (t.startswith("E,") or t.startswith("EN,")) and parts[0] == "b1" and prev >= 3: return True
             if t == "C" and prev >= 1 and t is not toks[-1]: return True
             prev = int(parts[1])
         return False
     # LRU: a pop, or a successful touch/get_touch while at least two keys are cached
-    return any(o.startswith("p") for o in outs) or any(t.split(",")[0] in ("T", "TI", "GT") and o in ("u", "b1") or o.startswith("v") and t.startswith("GT") for t, o in zip(toks, outs))
+    return any(o.startswith("p") for o in outs) or any(t.startswith("PG") and o == "u" for t, o in zip(toks, outs)) or any(t.split(",")[0] in ("T", "TI", "GT") and o in ("u", "b1") or o.startswith("v") and t.startswith("GT") for t, o in zip(toks, outs))
 
 if exe is None:
     ck.violation("correspondence harness does not compile against /repo", {"correspondence": "harness/C17/c17_harness.cpp", "log": log[-2000:]}, no_input=True)
@@ -180,7 +232,7 @@ else:
     for idx, c in enumerate(cases[:len(impl)]):
         a = impl[idx]; b = model[idx]
         if a == "<crash>": continue
-        kind = c.split()[0]
+        kindv = c.split()[0]; kind = kindv.split(":")[0]
         if "INVALID-HISTORY" in b or "MODEL-DIFFERS-FROM-SPEC" in b or "MODELBAD" in b:
             ck.violation("generator/model self-check failed: " + b[-60:], {"case": c, "model": b}, no_input=True); break
         if kind == "exh":
@@ -205,7 +257,7 @@ else:
                              {"correspondence": "harness/C17/c17_harness.cpp vs Splay.srun/Lru.lrun", "case": first[0].split(" => ")[0] if first else None,
                               "impl": first[0] if first else a, "model": first[1] if first else b}, no_input=True)
             continue
-        stats[kind] += 1; evaluations += 1
+        stats[kindv] += 1; evaluations += 1
         if c not in distinct and nontrivial(kind, c, a): distinct.add(c)
         if "PROPFAIL" in a:
             found = True
@@ -232,10 +284,12 @@ ck.finish({
     "samples": samples,
     "input_distribution": stats_out,
     "exhaustive": False,
+    "api_surface": API_SURFACE,
 }, assumptions=[
     "std::list / std::unordered_map are modelled by their specification (a stored list iterator = the list entry with that key)",
     "LruCacheSet is tied to the same model as LruCacheMap (value fixed to 0); the two classes' texts are separate in C++ and both are run",
     "Compare = std::less over integer keys; node identity = allocation number",
     "pop() on an empty cache is a precondition violation (assert) and excluded from histories",
     "extraction: ExtrOcamlBasic only; nat/list stay Coq inductives",
+    "variants (kind:variant) select the C++ instantiation only; PG,k,j is the model history [get j; put k v], EN,k is [find k; erase k]; mirrored keys under the reversed comparator are mapped back before comparison",
 ])
